@@ -659,6 +659,10 @@ void reftable_reader_free(struct reftable_reader *r)
 	reftable_free(r);
 }
 
+static int reftable_reader_refs_for_unindexed(struct reftable_reader *r,
+					      struct reftable_iterator *it,
+					      uint8_t *oid);
+
 static int reftable_reader_refs_for_indexed(struct reftable_reader *r,
 					    struct reftable_iterator *it,
 					    uint8_t *oid)
@@ -692,6 +696,14 @@ static int reftable_reader_refs_for_indexed(struct reftable_reader *r,
 		iterator_set_empty(it);
 		err = 0;
 		goto done;
+	}
+
+	if (got.offset_len == 0) {
+		/* The writer dropped the block positions because they did
+		   not fit in a block. */
+		reftable_iterator_destroy(&oit);
+		reftable_record_release(&got_rec);
+		return reftable_reader_refs_for_unindexed(r, it, oid);
 	}
 
 	err = new_indexed_table_ref_iter(&itr, r, oid, hash_size(r->hash_id),
